@@ -84,7 +84,11 @@ func seedFor(x string) int64 {
 }
 
 // ---------------------------------------------------------------- C16
-var triviaForms = []string{" ", "  ", "\n", "\t", " /*c*/ ", " -- c\n", " # c\n", " // c\n", "\r\n", " /* a\n b */ ", " /**/ "}
+var triviaForms = []string{" ", "  ", "\n", "\t", " /*c*/ ", " -- c\n", " # c\n", " // c\n", "\r\n", " /* a\n b */ ", " /**/ ",
+	// every Unicode White_Space character the lexer's skipSpaces must accept
+	"\f", "\v", "\r", "\u0085", "\u00a0", "\u1680", "\u2003", "\u2028", "\u2029", "\u202f", "\u205f", "\u3000",
+	// empty and degenerate comments, comments next to each other, comment openers inside comments
+	" #\n", " --\n", " //\n", " /***/", " /* * / */", " #a\n#b\n", " /*--*/", " -- /*\n", " /*#*/", " #*/\n", " /*\n*/\n", " --\r\n", " /*'*/", " /*`*/ ", " # \"\n"}
 
 func randCase(rnd *rand.Rand, s string) string {
 	b := []byte(s)
